@@ -200,6 +200,10 @@ def _optimise_operator(op):
                 attr = left_parser(leaf[1])
                 leaf_op = getattr(parent, attr)
                 if isinstance(leaf_op, _OpChain):
+                    if leaf_op._ops[-1] is same_leaf[key][1]:
+                        # The same chain object sits in several places of
+                        # the tree and has been shortened already
+                        continue
                     if first_difference == len(leaf_op._ops):
                         setattr(parent, attr, same_leaf[key][1])
                     else:
@@ -238,7 +242,8 @@ def _optimise_operator(op):
             parent = nodes[nodes[node_indices][1]][0]
             attr = left_parser(nodes[node_indices][2])
             if isinstance(getattr(parent, attr), _OpChain):
-                getattr(parent, attr)._ops = getattr(parent, attr)._ops[:-1] + (same_node[key][1],)
+                if getattr(parent, attr)._ops[-1] is not same_node[key][1]:
+                    getattr(parent, attr)._ops = getattr(parent, attr)._ops[:-1] + (same_node[key][1],)
             else:
                 setattr(parent, attr, same_node[key][1])
             # Nodes have been replaced - treat replacements now as leaves
